@@ -4,7 +4,8 @@
    call, the reply the specification determines and the projection (every
    observation of every scope) after the call. *)
 EXTENDS RaftStorage, Json, TLC
-CONSTANT Depth
+CONSTANTS Depth,
+          Faults   \* BOOLEAN: generate SaveFails steps (writes that return an error; the harness injects the failure)
 VARIABLE hist
 
 SimInit == Init /\ hist = << [ev |-> ev, st |-> Proj] >>
@@ -52,6 +53,9 @@ SimStep ==
   \/ \E s \in Pick(Scopes) : \E snap \in Pick({x \in ReplaceChoices(ref[s]) : x.i = ref[s].applied}) : ReplaceSnapshot(s, snap)
   \/ \E s \in Pick(Scopes) : \E snap \in Pick(ReplaceChoices(ref[s])) : RandomElement(1..4) = 1 /\ ReplaceSnapshot(s, snap)
   \/ Reopen
+  \* a write that fails (twice: it needs a cached scope before it and further writes after it)
+  \/ Faults /\ \E s \in Pick(Scopes) : SaveFails(s)
+  \/ Faults /\ \E s \in Pick(Scopes) : SaveFails(s)
   \/ \E s \in Pick(Scopes) : \E lo \in Pick(1..(MaxIdx + 1)) : \E hi \in Pick(lo..(MaxIdx + 2)) : GetEntries(s, lo, hi)
   \/ \E s \in Pick(Scopes) : \E i \in Pick(0..(MaxIdx + 1)) : GetTerm(s, i)
   \/ \E s \in Pick(Scopes) : \E k \in Pick(1..4) :
